@@ -655,6 +655,27 @@ class Func:
             self._guards = g
         return self._guards
 
+    def control_conds(self, bb):
+        """condition terms of all branches that block bb is (transitively) control dependent on"""
+        if getattr(self, '_cd', None) is None:
+            self._cd = self.cfg.control_deps()
+        seen = set()
+        out = []
+        work = [bb]
+        while work:
+            b = work.pop()
+            for (a, s) in self._cd.get(b, ()):
+                if a in seen:
+                    continue
+                seen.add(a)
+                t = self.body.blocks[a].term
+                if t.kind == 'switch':
+                    out.append(self.operand_term(t.discr))
+                elif t.kind == 'assert':
+                    out.append(self.operand_term(t.cond))
+                work.append(a)
+        return out
+
     # ------------------------------------------------------------ loops
     def loop_info(self):
         """list of dicts: header, blocks, item term, iterator term, for `for` loops driven by Iterator::next"""
